@@ -171,7 +171,8 @@ def run(R: vlib.Run):
         "Coq 8.16.1 kernel + vm_compute (correspondence, witnesses, examples)",
         "tools/py2coq translator (Gen/Kernels.v) and its plug-in tools/py2coq/gen_c14.py (Gen/C14_stats.v): Python ast -> Gallina; assumed numba "
         "semantics: prange runs each iteration once, int64 + - * wrap, float64 accumulator sums integer-valued data exactly, np.empty is arbitrary",
-        "hand model Model/C14_filters.v: np.pad(mode='symmetric') as the index map sym (validated here for every pad incl. pad > length), "
+        "hand model Model/C14_filters.v: np.pad(mode='symmetric') as the index map sym (validated here for every pad incl. pad > length; proved equal, for "
+        "every pad pair, to Model/C14_nppad.v, a hand transcription of NumPy's chunk-by-chunk _set_reflect_both loop that is itself run against np.pad), "
         "C-order reshape + reduction over axes (1,3) as index arithmetic, composition pad -> moving window -> slice",
         "bottleneck move_mean/move_median are a Section variable specified as 'aggregate of the trailing w entries' (validated here on the same sweep)",
         "NumPy median/mean as the aggregate (parameter `agg`); float32/float64 rounding (theorems are over exact integers / rationals)",
@@ -484,6 +485,9 @@ def run(R: vlib.Run):
                     if not agrees(out, spec_ds1(x, f, method)):
                         R.fail(f"timeseries-downsample-{method}", "TimeSeries.downsample is not the group aggregate",
                                {"x": L(x), "factor": f, "method": method, "got": L(out)})
+                    if n <= 13:          # correspondence with the call-site model (ts_downsample_*_model): f * mean resp. 2 * median, exact integers
+                        sc = f if method == "mean" else 2
+                        corr_ds.append(("ts", method == "median", False, L(x.astype(np.int64)), [f], [int(round(float(v) * sc)) for v in np.asarray(out)]))
                 except Exception as e:  # noqa: BLE001
                     R.fail(f"timeseries-downsample-{method}", f"TimeSeries.downsample raised {type(e).__name__}: {e}", {"x": L(x), "factor": f})
     for nchans, nsamps in [(1, 1), (1, 5), (4, 1), (3, 7), (6, 4), (5, 9)] + [(rng.randrange(2, 12), rng.randrange(2, 30)) for _ in range(3)]:
@@ -890,7 +894,7 @@ def run(R: vlib.Run):
     gtxt, gerrs = gen_c14.gen_c14(vlib.REPO)
     uses_cast = "detrend_1d_uses_input_dtype_cast : bool := true" in gtxt
     HEAD = ("From Coq Require Import ZArith QArith Qabs List Bool.\n"
-            "Require Import SPP.Base.Rt SPP.Gen.Kernels SPP.Gen.C14_stats SPP.Model.C14_filters SPP.Model.C14_pinned.\n"
+            "Require Import SPP.Base.Rt SPP.Gen.Kernels SPP.Gen.C14_stats SPP.Model.C14_filters SPP.Model.C14_nppad SPP.Model.C14_pinned.\n"
             "Import ListNotations.\nOpen Scope Z_scope.\n")
     TAIL = ("Definition idx := map fst (filter (fun p => negb (ok (snd p))) (combine (seq 0 (length cases)) cases)).\n"
             "Eval vm_compute in (length cases, idx).\n")
@@ -941,10 +945,39 @@ def run(R: vlib.Run):
              "  else if kind =? 3 then  (* downsample_2d_flat *)\n"
              "    if med then list_eqb (to_list nout (ds2f_median_model agg (of_list x) f1 f2 d1 d2)) out\n"
              "    else negb (ds2f_rejects (Z.of_nat (length x)) f1 f2 d1 d2) && list_eqb (to_list (nout + 2) (ds2f_mean_call dc junk (of_list x) f1 f2 d1 d2)) (out ++ [-7; -7])\n"
+             "  else if kind =? 5 then  (* TimeSeries.downsample, (factor): call-site model incl. the factor-1 shortcut and the refusal test *)\n"
+             "    let n := Z.of_nat (length x) in let f := nthz p 0 in\n"
+             "    negb (ts_downsample_rejects n f) && (ts_downsample_len n f =? nout) &&\n"
+             "    (if med then let m := to_list nout (ts_downsample_median_model agg (of_list x) n f) in   (* out = 2 * median; the shortcut returns the samples *)\n"
+             "                 list_eqb (if ts_downsample_returns_self f then map (Z.mul 2) m else m) out\n"
+             "     else list_eqb (to_list nout (ts_downsample_mean_model dc n junk (of_list x) f)) out &&\n"
+             "          (if f =? 1 then true else list_eqb (to_list 2 (fun k => ts_downsample_mean_model dc n junk (of_list x) f (nout + k))) [-7; -7]))\n"
              "  else  (* FilterbankBlock.downsample, (nchans, nsamps, ffactor, tfactor) *)\n"
-             "    let s2 := d2 / f2 in list_eqb (map (fun k => block_downsample_model sumZ (of_list x) d1 d2 f1 f2 (k / s2) (k mod s2)) (zrange nout)) out.\n")
-    kinds = {"d1": 1, "d2": 2, "d2f": 3, "blk": 4}
+             "    let '(g1, g2) := block_downsample_factors f1 f2 in let '(s0, _, s2, _) := ds2_shape d1 d2 g1 g2 in   (* the shape the call site asks for *)\n"
+             "    (s0 * s2 =? nout) && list_eqb (map (fun k => block_downsample_model sumZ (of_list x) d1 d2 f1 f2 (k / s2) (k mod s2)) (zrange nout)) out.\n")
+    kinds = {"d1": 1, "d2": 2, "d2f": 3, "blk": 4, "ts": 5}
     run_shards("ds", corr_ds, lambda c: f"({kinds[c[0]]}, {bb(c[1])}, {bb(c[2])}, {vlib.zlist(c[3])}, {vlib.zlist(c[4])}, {vlib.zlist(c[5])})", ok_ds)
+
+    # NumPy's own chunk-by-chunk symmetric padding (Model/C14_nppad.v, the subject of C14_numpy_symmetric_pad_every_length) against np.pad:
+    # every pad pair of a small lattice (0 .. 7 n + 3 on either side, asymmetric too) and the pads of windows many times the length
+    corr_pad = []
+    for n in range(1, 7):
+        x = [int(v) for v in (np.arange(n) * 7 + 3 + nprng.integers(0, 3, n))]
+        lat = sorted({0, 1, 2, n - 1, n, n + 1, 2 * n, 2 * n + 1, 3 * n + 2, 7 * n + 3})
+        for pl in lat:
+            for pr in lat:
+                corr_pad.append((x, pl, pr, [int(v) for v in np.pad(np.array(x), (pl, pr), "symmetric")]))
+    corr_pad = rng.sample(corr_pad, 300 if quick else len(corr_pad))
+    for n, w in [(2, 1526), (3, 193), (5, 37), (8, 1526), (1, 40), (7, 449)]:
+        x = [int(v) for v in nprng.integers(0, 256, n)]
+        pl, pr = w // 2, (w // 2 if w % 2 else w // 2 - 1)
+        corr_pad.append((x, pl, pr, [int(v) for v in np.pad(np.array(x), (pl, pr), "symmetric")]))
+    ok_pad = ("Definition ok (c : list Z * Z * Z * list Z) : bool :=\n"
+              "  let '(x, pl, pr, out) := c in let n := Z.of_nat (length x) in\n"
+              "  let '(P, lp, rp) := np_pad_symmetric (fun _ => -7) (of_list x) n pl pr in\n"
+              "  (lp =? 0) && (rp =? 0) && (Z.of_nat (length out) =? pad_len n pl pr) && list_eqb (to_list (pad_len n pl pr) P) out\n"
+              "  && list_eqb (to_list (pad_len n pl pr) (pad_sym (of_list x) n pl)) out.\n")
+    run_shards("pad", corr_pad, lambda c: f"({vlib.zlist(c[0])}, {c[1]}, {c[2]}, {vlib.zlist(c[3])})", ok_pad, per=160)
 
     def q(v):
         fr = Fraction(float(v))
@@ -959,7 +992,7 @@ def run(R: vlib.Run):
               "  forallb (fun k => close " + ("u8" if uses_cast else "false") + " (r k) (nth (Z.to_nat k) out 0)) (zrange m).\n"
               "Close Scope Q_scope.\n")
     run_shards("det", corr_det, lambda c: f"({bb(c[0] == 'uint8')}, {vlib.zlist(c[1])}, [" + "; ".join(q(v) for v in c[2]) + "]%Q)", ok_det, per=200)
-    R.extra_cov["correspondence_cases"] = len(corr_rf) + len(corr_ds) + len(corr_det)
+    R.extra_cov["correspondence_cases"] = len(corr_rf) + len(corr_ds) + len(corr_det) + len(corr_pad)
     R.extra_cov["detrend_model_has_input_dtype_cast"] = uses_cast
     return R
 
